@@ -162,6 +162,23 @@ impl Bloom {
     }
 }
 
+#[cfg(transparencies_stretto_verif)]
+impl Bloom {
+    /// (size_exp, size mask, set_locs, shift, number of words)
+    pub(crate) fn verif_params(&self) -> (u64, u64, u64, u64, usize) {
+        (
+            self.size_exp,
+            self.size,
+            self.set_locs,
+            self.shift,
+            self.bitset.len(),
+        )
+    }
+    pub(crate) fn verif_words(&self) -> Vec<u64> {
+        self.bitset.clone()
+    }
+}
+
 #[cfg(test)]
 mod test {
     use crate::bbloom::Bloom;
